@@ -300,7 +300,15 @@ fn gen_cfg(rng: &mut Sm64, nmax: usize, force_kind: Option<Kind>) -> (Cfg, u64) 
     let ker = match rng.below(5) {
         0 | 1 => Ker::Linear,
         2 | 3 => Ker::Gauss(*rng.pick(&[0.5, 2.0, 10.0, 50.0])),
-        _ => Ker::Poly(*rng.pick(&[0.0, 1.0]), *rng.pick(&[2.0, 3.0])),
+        _ => {
+            // degree 2 / 3 with constants 0 / 1, and the first-degree polynomial (inner product shifted by a
+            // constant: the only kernel besides the linear one for which an explicit hyperplane is tempting)
+            // with constants 0, 0.5, 1, 3
+            let c2 = *rng.pick(&[0.0, 1.0]);
+            let d2 = *rng.pick(&[2.0, 3.0]);
+            let c1 = *rng.pick(&[0.0, 0.5, 1.0, 3.0]);
+            if rng.chance(0.4) { Ker::Poly(c1, 1.0) } else { Ker::Poly(c2, d2) }
+        }
     };
     if let Ker::Poly(_, _) = ker {
         // keep the kernel values of the polynomial kernel within a few units (the solver tolerance is absolute)
@@ -344,7 +352,7 @@ fn emit(out: &mut Out, id: u64, c: &Cfg, fam: &str, stream: &str, thorough: bool
     if !out.wanted(id) { return; }
     let n = c.x.len();
     let kname = kind_name(c.kind);
-    let kern = match c.ker { Ker::Linear => "linear", Ker::Gauss(_) => "gaussian", Ker::Poly(_, _) => "polynomial" };
+    let kern = match c.ker { Ker::Linear => "linear", Ker::Gauss(_) => "gaussian", Ker::Poly(_, d) => if d == 1.0 { "polynomial_degree1" } else { "polynomial" } };
     let mut tags: Vec<String> = vec![format!("kind_{}", kname), format!("kernel_{}", kern),
         (if c.shrink { "shrinking_true" } else { "shrinking_false" }).to_string(), format!("family_{}", fam), format!("stream_{}", stream)];
     if c.platt { tags.push("platt".into()); }
@@ -629,6 +637,25 @@ fn main() {
         let nmax = if big { if thorough { 250 } else { 120 } } else { if thorough { 60 } else { 36 } };
         let (c, fam) = gen_cfg(&mut r, nmax, None);
         emit(&mut out, id, &c, &format!("{}", fam), "random", thorough, &mut max_slack_ratio);
+        id += 1;
+    }
+    // ---- stream "poly1": every problem kind x first-degree polynomial kernel <x,y> + c, c in {0, 0.5, 1, 3}
+    // (the decision value must contain c * sum_i alpha_i, which vanishes only when sum_i alpha_i = 0, i.e. not
+    // for one-class fits), and the linear kernel with one-class fits ----
+    id = 3000;
+    for k in 0..24u64 {
+        let mut r = rng.fork();
+        let kind = [Kind::OneClass, Kind::CSvc, Kind::NuSvc, Kind::EpsSvr, Kind::NuSvr, Kind::OneClass][(k % 6) as usize];
+        let (mut c, fam) = gen_cfg(&mut r, 20, Some(kind));
+        let was_poly = matches!(c.ker, Ker::Poly(_, _));
+        c.ker = if k % 6 == 5 { Ker::Linear } else { Ker::Poly([0.0, 0.5, 1.0, 3.0][(k / 6) as usize], 1.0) };
+        if let Ker::Poly(_, _) = c.ker { if !was_poly { for row in c.x.iter_mut() { for v in row.iter_mut() { *v *= 0.5; } } } }
+        c.platt = false;
+        if c.kind == Kind::OneClass && c.par1 >= 1.0 { c.par1 = 0.5; }
+        // queries: training samples (the one-class decision on them is what the labels publish) and fresh points
+        c.q = vec![c.x[0].clone(), c.x[c.x.len() / 2].clone(), c.x[c.x.len() - 1].clone(),
+                   (0..c.x[0].len()).map(|_| 2.0 * r.gauss()).collect(), vec![0.0; c.x[0].len()]];
+        emit(&mut out, id, &c, &format!("{}", fam), "poly1", thorough, &mut max_slack_ratio);
         id += 1;
     }
     out.bump_by("max_kkt_slack_over_eps_x1000_csvc_noshrink", (max_slack_ratio * 1000.0) as u64);
